@@ -228,7 +228,7 @@ def run_scenario(ctx, events, tids, counter, scn, files, roles):
         events.extend(hex_events(path, tid))
 
 
-STALE = b"left behind by an earlier invocation\n"
+STALE = core.STALE
 
 
 def judge(ctx, events, tids, label):
